@@ -1399,7 +1399,8 @@ class QueryBuilder(Selectable, Term):  # type:ignore[misc]
         return not self.__eq__(other)
 
     def __hash__(self) -> int:
-        return hash(self.alias) + sum(hash(clause) for clause in self._from)
+        # consistent with __eq__, which compares the alias only
+        return hash(self.alias)
 
     def get_sql(self, ctx: SqlContext | None = None) -> str:
         if not ctx:
